@@ -53,7 +53,8 @@ TemplateA(cols, npi, deg) ==
             ELSE <<FirstA(npi), LastA(npi), TransA(deg, cols)>> \o (IF cols >= 3 THEN <<All2>> ELSE <<>>)]
 
 SYSTEMS == TLCEval(<<TemplateA(2, 2, 2), TemplateA(2, 0, 2), TemplateA(2, 2, 1), TemplateA(2, 2, 3),
-                     TemplateA(3, 0, 2), TemplateA(2, 0, 0), TemplateA(3, 2, 3)>>)
+                     TemplateA(3, 0, 2), TemplateA(2, 0, 0), TemplateA(3, 2, 3),
+                     TemplateA(2, 3, 2)>>)       \* 8: the third public input is referenced by no constraint (context tag)
 
 (* ---- honest traces of template A from free cells ------------------- *)
 RECURSIVE StateA(_, _, _, _)        \* value of column 0 at row i
